@@ -9,7 +9,7 @@ CONSTANTS
   Class3 = {"100"}
   LongNames = {"1000"}
   OtherNames = {}
-  ClientMbox = {}
+  ClientMbox = {"m1"}
   GenMbox <- cGen2
   EXP = 11
   PERIOD = 5
@@ -26,6 +26,7 @@ CONSTANTS
   MaxTime = 0
   MaxMsgs = 1
   MaxUsage = 0
+  MaxDepth = 10
   WithStop = FALSE
   WithCrash = FALSE
   WithCrashIn = FALSE
@@ -43,3 +44,5 @@ PROPERTY P07
 PROPERTY P08
 PROPERTY P09
 PROPERTY P10
+PROPERTY P17
+PROPERTY P18
